@@ -115,12 +115,15 @@ def converter_columns(ctx):
     if 'c' in _cols and _cols.get('m') is ctx.M:
         return _cols['c']
     cols = set()
-    fn = ctx.fn('CSVDailyBarDataSource._convert_bar_frame_into_bid_ask_df')
-    for n in ast.walk(fn.node):
-        if isinstance(n, ast.Assign) and len(n.targets) == 1 and isinstance(n.targets[0], ast.Subscript) and isinstance(n.targets[0].slice, ast.Constant):
-            cols.add(n.targets[0].slice.value)
-        if isinstance(n, ast.Call) and isinstance(n.func, ast.Attribute) and n.func.attr == 'assign':
-            cols |= {k.arg for k in n.keywords if k.arg}
+    # every column some path of the converter (helpers included) writes by subscript or adds with .assign(...)
+    for p in normal(summarise(ctx, 'CSVDailyBarDataSource._convert_bar_frame_into_bid_ask_df', policy=default_policy)):
+        for w in heap_writes(p):
+            if w.loc[0] == 'sub' and w.loc[2][0] == 'str':
+                cols.add(w.loc[2][1])
+        for t in ([p.value] if p.value is not None else []) + [w.value for w in heap_writes(p) if w.value is not None]:
+            for s in T.subterms(t):
+                if s[0] == 'call' and s[1] == ('meth', 'assign'):
+                    cols |= {k for k, _ in s[3] if k}
     _cols['c'], _cols['m'] = cols, ctx.M
     return cols
 
@@ -264,7 +267,11 @@ def confinement(ctx):
 def handler(ctx):
     for qn, src in (('BacktestDataHandler.get_asset_latest_bid_price', 'get_bid'), ('BacktestDataHandler.get_asset_latest_ask_price', 'get_ask')):
         fn = ctx.fn(qn)
-        ps = summarise(ctx, qn, policy=no_inline)
+
+        def own_helpers(caller, callee, depth, _p=fn.path):
+            # helpers of the handler's own module are seen through (a shared 'first valid price' routine); the data sources stay opaque calls
+            return depth <= 4 and callee.path == _p and callee.name.startswith('_') and not callee.name.startswith('__')
+        ps = summarise(ctx, qn, policy=own_helpers)
         got = False
         for p in ps:
             if p.outcome != 'return':
@@ -291,10 +298,10 @@ def handler(ctx):
                 else:
                     ctx.require(tested is True, 'C06.S6', '%s accepts a source value iff it is not NaN' % qn, fn.site(), cond_str(p)[:160], key='C06.S6|%s|nan-test' % qn)
         ctx.require(got, 'C06.S6', '%s derives its answer from the data sources' % qn, fn.site(), key='C06.S6|%s|derives' % qn)
-        for f2, n in calls_named(ctx.M, src):
-            if f2.qn == qn:
-                ok = len(n.args) >= 2 and isinstance(n.args[0], ast.Name) and n.args[0].id == 'dt'
-                ctx.require(ok, 'C06.S6', '%s passes its own dt to the data source' % qn, f2.site(n), key='C06.S6|%s|dt' % qn)
+        for p in ps:
+            for e in p.flat_events():
+                if e.kind == 'call' and any(c.endswith('.' + src) for c in e.callee):
+                    ctx.require(e.args.get('dt') == V('dt'), 'C06.S6', '%s passes its own dt to the data source' % qn, e.site, fmt(e.args.get('dt') or T.ZERO), key='C06.S6|%s|dt' % qn)
 
 
 def row_offsets(p):
